@@ -141,7 +141,9 @@ def judge(chk, run, it, cxx, std, impl, stats):
             exp = expected_char(ev, n)
             stats['kinds'][ev.kind] = stats['kinds'].get(ev.kind, 0) + 1
             stats['outcomes'][got] = stats['outcomes'].get(got, 0) + 1
-            if mrun[j] == 'U' or ev.huge:
+            if not ev.modelled:
+                stats['spec_only_calls'] += 1
+            elif mrun[j] == 'U' or ev.huge:
                 stats['model_undefined'] += 1
             if got == exp and exp == 'A' and ev.needs_end <= c10gen.INF - 1 and n + 1 > ev.needs_end - 1:
                 stats['boundary'] += 1
@@ -178,6 +180,8 @@ def judge(chk, run, it, cxx, std, impl, stats):
                     cause = 'view-begins-past-end'
                 elif ev.kind in ('data.assign_range',) and got == 'F':
                     cause = 'write-before-check'
+                elif ev.kind in ('data.insert_n', 'data.insert') and got == 'F':
+                    cause = 'unknown-container'
                 else:
                     cause = 'unknown'
             key = (j, bad, cause)
@@ -201,7 +205,7 @@ def judge(chk, run, it, cxx, std, impl, stats):
                     'case': case})
             elif bad == 'bad-path':
                 chk.report_unproved('driver-path', {'chain': ev.cpp_path, 'message': it.m['name']})
-            if got != mrun[j] and mrun[j] != 'U' and not ev.huge and ('model', j) not in reported:
+            if ev.modelled and got != mrun[j] and mrun[j] != 'U' and not ev.huge and ('model', j) not in reported:
                 reported.add(('model', j))
                 stats['model_mismatch'] += 1
                 chk.report_unproved('impl≠model (Rt.Guards does not describe what the accessor does)', {
@@ -209,9 +213,9 @@ def judge(chk, run, it, cxx, std, impl, stats):
                     'spec': CH[exp], 'schema_xml': open(it.case.xml).read(), 'message': it.m['name'],
                     'image': wire.hexs(it.img), 'cxx': cxx, 'std': std})
             # guard / spec columns of the model answer
-            if (mspec[j] == 'i') != (ev.needs_end <= n):
+            if ev.modelled and (mspec[j] == 'i') != (ev.needs_end <= n):
                 chk.report_unproved('model-spec-verdict', {'chain': ev.cpp_path, 'n': n})
-            if mrun[j] == 'o' and mguard[j] != 'g':
+            if ev.modelled and mrun[j] == 'o' and mguard[j] != 'g':
                 chk.report_unproved('model-run-without-guard', {'chain': ev.cpp_path, 'n': n})
 
 
@@ -285,7 +289,7 @@ def judge_cursor(chk, run, it, cxx, std, impl, stats):
 def run_schemas(chk, nschemas, configs, values_per_msg, muts_per_image, max_image=220, max_chains=260):
     run = W.WireRun(chk, nschemas, configs, values_per_msg=values_per_msg, seed_salt=10, max_depth=3)
     stats = {'calls': 0, 'kinds': {}, 'outcomes': {}, 'boundary': 0, 'ok_beyond_needs': 0, 'model_mismatch': 0,
-             'ok_beyond_needs_kinds': {}, 'ok_beyond_needs_samples': [], 'violations_by_cause': {}, 'model_undefined': 0, 'wrap_regime_ok': 0,
+             'ok_beyond_needs_kinds': {}, 'ok_beyond_needs_samples': [], 'violations_by_cause': {}, 'model_undefined': 0, 'wrap_regime_ok': 0, 'spec_only_calls': 0,
              'images': 0, 'mutated_images': 0, 'chains': 0, 'truncation_points': 0, 'cursor_calls': 0,
              'cursor_runs': 0}
     try:
@@ -320,7 +324,7 @@ def run_schemas(chk, nschemas, configs, values_per_msg, muts_per_image, max_imag
             stats['images'], stats['mutated_images'], stats['chains'], stats['truncation_points']))
         # model
         reqs = [c10gen.lean_request(it.case.layout['byteOrder'], BASE, it.img, 'all', it.m,
-                                    [(ev.needs_end, ev.lean_ops) for ev in it.evals]) for it in items]
+                                    [(ev.needs_end, ev.lean_ops) for ev in it.evals if ev.modelled]) for it in items]
         creqs = [(i, c10gen.lean_ctrav_request(it.case.layout['byteOrder'], BASE, it.img, 'all', it.m,
                                                [r[2] for r in it.cruns]))
                  for i, it in enumerate(items) if it.cruns]
@@ -339,7 +343,19 @@ def run_schemas(chk, nschemas, configs, values_per_msg, muts_per_image, max_imag
                         chk.report_unproved('model-guard', {'answer': o[:300], 'request': reqs[i][:600]})
                         it.model = None
                     else:
-                        it.model = [b.split('/') for b in blocks]
+                        # chains without a model (container operations) get the placeholder '-'
+                        cols = []
+                        for b in blocks:
+                            parts = b.split('/')
+                            k = 0
+                            full = [[], [], []]
+                            for ev in it.evals:
+                                for q in range(3):
+                                    full[q].append(parts[q][k] if ev.modelled else '-')
+                                if ev.modelled:
+                                    k += 1
+                            cols.append([''.join(x) for x in full])
+                        it.model = cols
         cchunks = [creqs[i::core.NPROC] for i in range(core.NPROC)]
         cchunks = [ch for ch in cchunks if ch]
         with cf.ThreadPoolExecutor(core.NPROC) as ex:
